@@ -420,6 +420,7 @@ func runC04(c *mon.Ctx) {
 	}
 	c04DuplicateMembers(c)
 	c04RequiredMembers(c)
+	c04NotJSON(c)
 	c.Floor("hash_failing_cases", 200)
 	c.Floor("hash_matching_cases", 100)
 	c.Floor("redactable_only_cases", 100)
@@ -498,6 +499,62 @@ func c04RequiredMembers(c *mon.Ctx) {
 					if (rv.Get(key) == nil) != (want.Get(key) == nil) || (key == "type" && !ref.Equal(orNull(rv.Get(key)), orNull(want.Get(key)))) {
 						c.Failf("untrusted:accepted-event-redacts-to-made-up-"+key+":"+variant, "v%s: the parser accepts an event with %s; its redacted form, which the event ID and the signature check are computed over, has %q = %s where the redaction algorithm leaves %s\n%s", ver, variant, key, describeOrAbsent(rv.Get(key)), describeOrAbsent(want.Get(key)), text)
 					}
+				})
+			}
+		}
+	}
+}
+
+// c04NotJSON: texts that are not JSON (a member name without a value in front of a member the parser drops or reads)
+// but that the path-based readers the parser starts with are content with. Nothing that is not JSON is an event: the
+// parser refuses; if it returns an event all the same, the dropped member is not observable and the ID is the reference
+// hash, like for every other event.
+func c04NotJSON(c *mon.Ctx) {
+	r := c.Rand("not-json")
+	id := gen.NewIdentity(c.RandShared("id"), "a.example", "ed25519:k1")
+	n := c.Scale(3, 200)
+	for _, ver := range sortedVersions() {
+		t := ref.Traits(string(ver))
+		if t == nil {
+			continue
+		}
+		impl := gmsl.MustGetRoomVersion(ver)
+		for k := 0; k < n; k++ {
+			ps := genProto(r, t)
+			ev, err := buildEvent(ver, ps, id, baseTime)
+			if err != nil {
+				continue
+			}
+			base := ref.MustParse(ev.JSON())
+			base.Del("unsigned")
+			body := gen.Plain().Bytes(base)
+			body = body[:len(body)-1] // without the closing brace
+			for name, suffix := range map[string]string{
+				"event_id":     `,"event_id","event_id":"$evil:a.example"}`,
+				"unsigned":     `,"unsigned","unsigned":{"injected":true}}`,
+				"age_ts":       `,"age_ts","age_ts":5}`,
+				"bare-name":    `,"zz"}`,
+				"hashes-twice": `,"hashes","hashes":{"sha256":"AAAA"}}`,
+			} {
+				text := append(append([]byte{}, body...), suffix...)
+				c.Case("not-json:"+name+":"+string(ver), map[string]any{"version": ver, "text": string(text)}, func() {
+					c.NontrivialBytes(append([]byte(string(ver)+"|notjson|"+name+"|"), text...))
+					c.Count("not_json_cases")
+					if _, _, perr := ref.Parse(text); perr == nil {
+						panic("harness: the text is JSON after all")
+					}
+					var p gmsl.PDU
+					var err error
+					site, msg, pan := mon.Guard(func() { p, err = impl.NewEventFromUntrustedJSON(text) })
+					if pan {
+						c.Failf("untrusted:panic:"+site, "NewEventFromUntrustedJSON panics on text that is not JSON: %s", msg)
+						return
+					}
+					if err != nil || p == nil {
+						c.Count("not_json_refused")
+						return
+					}
+					c.Failf("untrusted:accepts-text-that-is-not-json:"+name, "v%s: NewEventFromUntrustedJSON returns an event (ID %s, unsigned %s) for a text that is not JSON\n%s", ver, p.EventID(), p.Unsigned(), text)
 				})
 			}
 		}
